@@ -702,6 +702,16 @@ def leancheck_all():
         if os.path.exists(jf):
             return json.load(open(jf))
         lean_build()
+        # lean_build() is cached per tree; the lake build directory is shared between trees (a seeded change or
+        # another tree's run may have rebuilt some modules from other generated files since), so bring EVERY
+        # module up to date for THIS tree before the re-checker reads the compiled files
+        with Lock("lake"):
+            run_extract()
+            rcb, outb = sh(["lake", "build", "Gecs"], cwd=LEAN, timeout=3600)
+        if rcb != 0:
+            res = {"modules": 0, "failed": [{"module": "lake build Gecs", "rc": rcb, "out": outb[-400:]}], "wall_s": 0}
+            json.dump(res, open(jf, "w"))
+            return res
         mods = []
         for f in sorted(glob.glob(os.path.join(LEAN, "Gecs", "**", "*.lean"), recursive=True)):
             mods.append(os.path.relpath(f, LEAN)[:-5].replace(os.sep, "."))
